@@ -487,6 +487,35 @@ def call_result(cases, check_impl=None, nontrivial=None, rule="", model_args=Non
                     v["input"] = {"fn": fn, "args": [core.show(a) for a in args], "types": [arg_type(a) for a in a2]}
                     v["note"] = "byte-string arguments passed as bytearray objects"
                     viol.append(v)
+    # call-style pass: the same call spelled differently (keywords, documented defaults omitted)
+    styled = 0
+    nst = 0
+    for fn, args, line in (uniq if len(uniq) <= 1200 else pick.sample(uniq, 1200)):
+        if not isinstance(fn, str) or fn not in core.FUNCS:
+            continue
+        try:
+            styles = core.call_styles(fn, args)
+        except Exception as e:  # noqa: BLE001
+            styles = []
+            diffs.append({"fn": fn, "pass": "call styles", "error": "signature not inspectable: " + repr(e)[:200]})
+        for label, thunk in styles:
+            try:
+                i = ("OK", core.show(thunk()))
+            except Exception as e:  # noqa: BLE001
+                i = ("ERR", core.bucket(e))
+            styled += 1
+            if i != mres[line]:
+                nst += 1
+                if nst <= 10:
+                    diffs.append({"fn": fn, "args": [core.show(a) for a in args], "impl": list(i), "model": list(mres[line]), "pass": "call style: " + label})
+                    if check_impl:
+                        v = check_impl(fn, args, i)
+                        if v:
+                            v = dict(v)
+                            v["input"] = {"fn": fn, "args": [core.show(a) for a in args]}
+                            v["note"] = "only when the call is written as: " + label
+                            viol.append(v)
+    dist["pass:call_styles"] = styled
     # fourth pass: the same calls executed by 8 threads in shuffled order at a minimal switch interval; every function
     # compared here is deterministic, so each result must still be the model's
     work = uniq if len(uniq) <= 2500 else pick.sample(uniq, 2500)
